@@ -260,7 +260,23 @@ pub fn corrupt_addr_text(t: &mut Tape, valid: &str) -> Vec<u8> {
             _ => t.below(n.min(6) as u32) as usize,
         }
     };
-    match t.weighted(&[4, 3, 3, 2, 2, 2]) {
+    match t.weighted(&[4, 3, 3, 2, 2, 2, 1]) {
+        6 => {
+            // every dotted-decimal octet written with three digits (the fixed-width form of appliances: 010.000.000.001)
+            if let Some(start) = s.iter().rposition(|&b| b == b':').map(|p| p + 1).or(Some(0)).filter(|_| s.contains(&b'.')) {
+                let quad = String::from_utf8_lossy(&s[start..]).to_string();
+                let padded: Vec<String> = quad.split('.').map(|o| format!("{:0>3}", o)).collect();
+                let joined = padded.join(".");
+                if joined != quad {
+                    s.truncate(start);
+                    s.extend_from_slice(joined.as_bytes());
+                } else {
+                    s[n - 1] = b'g';
+                }
+            } else {
+                s[n - 1] = b'g';
+            }
+        }
         5 => {
             // two edits that cancel in length: one numeral gains a leading zero or a digit (a five-digit group, a four-digit
             // octet) while another numeral loses a digit - the text is as long as a valid one and made of the same characters
@@ -801,7 +817,7 @@ pub const BAD_PORTS: &[&str] = &[
     "0x50", "1e3", "123456789012345678901", "\u{0661}", "1\t", "\t1", "1\n", "\u{ff11}", "٣", "4294967297", "18446744073709551617",
 ];
 pub const BAD_V4: &[&str] = &[
-    "256.1.1.1", "1.1.1.256", "01.1.1.1", "1.1.1.01", "1.1.1", "1.1.1.1.1", "1..1.1", ".1.1.1", "1.1.1.", "", "::1", "1.1.1.1a", "a.b.c.d",
+    "256.1.1.1", "1.1.1.256", "01.1.1.1", "010.000.000.001", "127.000.000.001", "001.002.003.004", "192.168.001.001", "255.255.255.0255", "1.1.1.01", "1.1.1", "1.1.1.1.1", "1..1.1", ".1.1.1", "1.1.1.", "", "::1", "1.1.1.1a", "a.b.c.d",
     "1.1.1.-1", "+1.1.1.1", "0x7f.0.0.1", "127.1", "2130706433", "1.1.1.1/24", "1.1.1.999", "1.1.1.1:80", "１.1.1.1", "1.1.1.1\t", "[", "[1.1.1.1]", "1.1.1.1]", "'1.1.1.1'", "[\u{e9}",
 ];
 pub const BAD_V6: &[&str] = &[
@@ -2219,8 +2235,12 @@ pub fn gen_any_bytes(t: &mut Tape) -> (Vec<u8>, &'static str) {
             (x, "v2-mutant")
         }
         _ => {
-            // text followed by a v2 header
+            // text followed by a v2 header (one time in three the line lacks its own CRLF: the signature's first two bytes
+            // then complete it)
             let mut x = gen_valid_line(t, false);
+            if t.chance(1, 3) {
+                x.truncate(x.len() - 2);
+            }
             x.extend_from_slice(&gen_v2_header(t).bytes);
             (x, "v1-then-v2")
         }
